@@ -809,3 +809,118 @@ def run_probes(univ, setup):
                     # the library swallowed the user's exception: legal only if the state is sound (checked above)
                     stats["swallowed"] = stats.get("swallowed", 0) + 1
     return fails, stats
+
+
+# ---------------------------------------------------------------------------
+# (a2) documented-invalid arguments that the history vocabulary cannot express (wrong types)
+# ---------------------------------------------------------------------------
+class Unhashable:
+    __hash__ = None
+
+
+def raw_invalid_probes(typed):
+    """(name, fn(w)): calls with arguments outside the documented types; whatever they raise, the snapshot
+    of every tree must be unchanged and C01-C03 must hold (when they do not raise, C01-C03 must hold)."""
+    kw = {"kind": "k1"} if typed else {}
+    P = []
+
+    def c(name, fn):
+        P.append((name, fn))
+
+    N = _nodes
+    for bad, nm in (("x", "'x'"), (1.5, "1.5"), (object(), "object()"), ([0], "[0]")):
+        c(f"Node.add(data, before={nm})", lambda w, bad=bad: N(w)[0].add(_fresh(w, "s:new"), before=bad, **kw))
+        c(f"Tree.add(data, before={nm})", lambda w, bad=bad: w.trees[0].add(_fresh(w, "s:new"), before=bad, **kw))
+        c(f"Node.add(node, before={nm})", lambda w, bad=bad: w.trees[0].add(N(w, 1)[-1], before=bad, **kw))
+        c(f"Node.add(tree, before={nm})", lambda w, bad=bad: N(w)[0].add(w.trees[1], before=bad))
+        c(f"Node.move_to(before={nm})", lambda w, bad=bad: N(w)[-1].move_to(w.trees[0], before=bad))
+        c(f"Node.copy_to(before={nm})", lambda w, bad=bad: N(w, 1)[-1].copy_to(N(w)[0], before=bad))
+    for bad, nm in (([1], "[1]"), ({}, "{}"), (Unhashable(), "Unhashable()")):
+        c(f"Node.add(data, data_id={nm})", lambda w, bad=bad: N(w)[0].add(_fresh(w, "s:new"), data_id=bad, **kw))
+        c(f"Tree.add(data, data_id={nm})", lambda w, bad=bad: w.trees[0].add(_fresh(w, "s:new"), data_id=bad, **kw))
+        c(f"Node.append_sibling(data, data_id={nm})", lambda w, bad=bad: N(w)[0].append_sibling(_fresh(w, "s:new"), data_id=bad))
+        c(f"Node.set_data(data, data_id={nm})", lambda w, bad=bad: N(w)[0].set_data(_fresh(w, "s:new"), data_id=bad))
+        c(f"Node.set_data(None, data_id={nm})", lambda w, bad=bad: N(w)[-1].set_data(None, data_id=bad, with_clones=True))
+        c(f"Node.add(unhashable data {nm})", lambda w, bad=bad: N(w)[0].add(bad, **kw))
+        c(f"Node.set_data(unhashable data {nm})", lambda w, bad=bad: N(w)[0].set_data(bad))
+        c(f"del tree[{nm}]", lambda w, bad=bad: w.trees[0].__delitem__(bad))
+        c(f"Node.from_dict(data_id={nm})", lambda w, bad=bad: [n for n in N(w) if not n._children][0].from_dict(
+            [{"data": "q1"}, {"data": "q2", "children": [{"data": "q3", "data_id": bad}]}]))
+
+    def calc_unhashable(w):
+        t = w.trees[0]
+        old = t._calc_data_id_hook
+        t._calc_data_id_hook = lambda tree, data: [1, 2]
+        try:
+            t.add(_fresh(w, "s:new"), **kw)
+        finally:
+            t._calc_data_id_hook = old
+
+    c("Tree.add(data) with calc_data_id returning a list", calc_unhashable)
+
+    def calc_unhashable_set(w):
+        t = w.trees[0]
+        old = t._calc_data_id_hook
+        t._calc_data_id_hook = lambda tree, data: [1, 2]
+        try:
+            N(w)[0].set_data(_fresh(w, "s:new"))
+        finally:
+            t._calc_data_id_hook = old
+
+    c("Node.set_data(data) with calc_data_id returning a list", calc_unhashable_set)
+    c("Node.add(data, node_id=<existing>)", lambda w: N(w)[0].add(_fresh(w, "s:new"), node_id=N(w)[-1].node_id, **kw))
+    c("Node.add(data, node_id='abc')", lambda w: N(w)[0].add(_fresh(w, "s:new"), node_id="abc", **kw))
+    c("Node.add(node, node_id=5)", lambda w: N(w)[0].add(N(w, 1)[-1], node_id=5, **kw))
+    c("Node.from_dict(item without data)", lambda w: [n for n in N(w) if not n._children][0].from_dict(
+        [{"data": "q1"}, {"data": "q2", "children": [{"data": "q3"}, {"nodata": 1}]}]))
+    c("Node.from_dict(duplicate node_id)", lambda w: [n for n in N(w) if not n._children][0].from_dict(
+        [{"data": "q1", "node_id": 77}, {"data": "q2", "node_id": 77}]))
+    c("Node.from_dict(5)", lambda w: [n for n in N(w) if not n._children][0].from_dict(5))
+    c("Node.move_to(None)", lambda w: N(w)[-1].move_to(None))
+    c("Node.move_to('abc')", lambda w: N(w)[-1].move_to("abc"))
+    c("Node.copy_to(None)", lambda w: N(w)[0].copy_to(None, deep=True))
+    c("Node.add(tree of the other class)", lambda w: N(w)[0].add((Tree if typed else TypedTree)("o"), **kw))
+    c("Tree.sort(key with uncomparable results)", lambda w: w.trees[0].sort(key=lambda n: object(), deep=True))
+    c("Tree.sort(key with mixed types)", lambda w: w.trees[0].sort(key=lambda n: (n.name if len(n.name) % 2 else 3), deep=True))
+    c("Tree.filter(None)", lambda w: w.trees[0].filter(None))
+    c("Tree.filter(predicate returning a str)", lambda w: w.trees[0].filter(lambda n: "x"))
+    c("Tree.visit(callback returning True)", lambda w: w.trees[0].visit(lambda n, memo: True))
+    c("Tree.iterator('bad')", lambda w: list(w.trees[0].iterator("bad")))
+    c("Tree.find_all()", lambda w: w.trees[0].find_all())
+    c("Tree.format(style='nope')", lambda w: w.trees[0].format(style="nope"))
+    c("Tree.save('/nonexistent_dir/x')", lambda w: w.trees[0].save("/nonexistent_dir/x.json"))
+    c("Tree.load(garbage)", lambda w: Tree.load(io.StringIO("{nope")))
+    c("Tree.diff('x')", lambda w: w.trees[0].diff("x"))
+    c("Node.set_meta([1], 2)", lambda w: N(w)[0].set_meta([1], 2))
+    c("Node.update_meta(None)", lambda w: N(w)[0].update_meta(None))
+    return P
+
+
+def run_raw_invalid(univ, setup, typed, only=None):
+    fails = []
+    stats = dict(raw_invalid=0, raw_raised=0)
+    for name, fn in raw_invalid_probes(typed):
+        if only is not None and name not in only:
+            continue
+        w = build_world(univ, setup)
+        if not _nodes(w) or len(w.trees) < 2 or not _nodes(w, 1):
+            continue
+        snap0 = snapshot(w)
+        raised = None
+        _old = sys.getrecursionlimit()
+        sys.setrecursionlimit(mut.OP_RECURSION_LIMIT)
+        try:
+            fn(w)
+        except Exception as e:
+            raised = e
+        finally:
+            sys.setrecursionlimit(_old)
+        stats["raw_invalid"] += 1
+        m = struct_fail(w)
+        if m:
+            fails.append((name, None, (f"raised {type(raised).__name__}; " if raised else "") + m))
+        if raised is not None:
+            stats["raw_raised"] += 1
+            if snapshot(w) != snap0:
+                fails.append((name, None, f"raised {type(raised).__name__} but {snap_diff(snap0, snapshot(w))}"))
+    return fails, stats
